@@ -74,6 +74,7 @@ func RecordRandom(cfg Config, rng *rand.Rand, withCancel bool) (log []Event, ok 
 		return nil, false, err
 	}
 	defer r.close()
+	r.holdTransient = rng.Intn(2) == 0
 	r.log = append(r.log, Event{"e": "cfg", "n": cfg.N, "deps": cfg.Deps, "cls": cfg.Cls, "parent": cfg.Parent, "inner": cfg.Inner})
 	r.start()
 	cancelAt := -1
